@@ -1,3 +1,4 @@
+import NucleoVerif.Model.OptImpl
 import NucleoVerif.Model.Matcher
 import NucleoVerif.Spec.Matcher
 import NucleoVerif.Driver.Chars
@@ -154,6 +155,22 @@ def oracle (c : MCase) (algo : Algo) (sres : String) (ir : ImplRes) (priorKept :
         if sc < full then bad := bad ++ [("C04", s!"score {sc} is below the value {full} of the two-matrix recurrence evaluated on the full matrix")]
   return bad
 
+/-- the window handed to the matrix path of `fuzzy_match`, if the model takes that path -/
+def matrixWindow (c : MCase) : Option (Nat × Nat) :=
+  if c.n.length = c.h.length || c.n.length < 2 then none
+  else match c.hrep with
+    | .ascii => match prefilterAscii c.cfg c.h c.n false with
+      | some (st, _, e) => if c.n.length ≠ e - st && slabFits 1 (e - st) c.n.length then some (st, e) else none
+      | none => none
+    | .unicode => match prefilterNonAscii c.cfg c.h c.n false with
+      | some (st, e) => if c.n.length ≠ e - st && slabFits 4 (e - st) c.n.length then some (st, e) else none
+      | none => none
+
+/-- prior content of the score row / the back-pointer cells for the code-level model (anything will do: the result must
+    not depend on it) -/
+def junkCur (k salt : Nat) : List Gen.Opt.ScoreCell := (List.range k).map fun i => ⟨(i * 37 + salt) % 700, (i + salt) % 11, (i + salt) % 2 == 0⟩
+def junkCells (k salt : Nat) : List Gen.Opt.MatrixCell := (List.range k).map fun i => ⟨(i + salt) % 4⟩
+
 def mLine (ws : List String) : String := Id.run do
   let get := fun k => (field ws k).getD ""
   let cfgId := (get "cfg").toNat?.getD 0
@@ -172,6 +189,16 @@ def mLine (ws : List String) : String := Id.run do
           issues := issues ++ [s!"ORACLE {p} {an}: {t}"]
         if ir.panic.isNone && showRes model ≠ ires then
           issues := issues ++ [s!"DIFF {an}: model {showRes model} impl {ires}"]
+        -- the code-level model of the compressed matrix (generated cell functions, one score row, two-bit back
+        -- pointers, traceback), started on arbitrary prior content, against the implementation
+        if algo == .fuzzy && ir.panic.isNone && !(c.hrep == .ascii && c.nrep == .unicode) then
+          if let some (st, e) := matrixWindow c then
+            let cols := windowCols c.cfg c.ext c.hrep c.h st e
+            let w := (e - st) + 1 - c.n.length
+            let salt := c.h.length + 3 * c.n.length
+            let code := OptImpl.optimalImpl c.cfg cols c.n st (junkCur w salt) (junkCells (w * c.n.length) salt)
+            if showRes code ≠ ires then
+              issues := issues ++ [s!"DIFF {an}: compressed-matrix model {showRes code} impl {ires} (window {st}..{e})"]
     | _ => issues := issues ++ ["bad-res-field"]
   -- C04: prefix preference never lowers a score and raises it by at most the prefix bonus
   match (get "ppo").splitOn "/" with
